@@ -212,6 +212,7 @@ func c02Opts(rng *lib.Rand, idx uint64) lib.GenOpts {
 		Narrow:        15,
 		BigEndian:     50,
 		Unknown:       30,
+		BigFileId:     4,
 		ZeroFieldDefs: 3,
 		RedefSimilar:  30,
 		// some records behind compressed-timestamp headers: a wire field must decode to its wire
